@@ -88,6 +88,10 @@ pub trait SimRuntime {
     fn connect(&self, address: &str) -> io::Result<(SimStream, SocketAddr, SocketAddr)>;
     /// The simulated process is dying: destructors must not spawn or touch files.
     fn is_dead(&self) -> bool;
+    /// Should writes to this file be handed over and completed later (see `fs::PendingWrite`)?
+    fn fs_defer_writes(&self, _path: &Path) -> bool {
+        false
+    }
     /// An HTTP request of the SDK's `HttpClient`, answered in-process by the simulated server.
     fn http_call(
         &self,
